@@ -691,6 +691,7 @@ def sext(a, w):
         if top.op == 'const' and top.w >= 1:
             if (top.args[0] >> (top.w - 1)) == 0:
                 return zext(a, w)
+            return concat([a, ones(w - a.w)])
     return mk('sext', (a,), w)
 
 
@@ -756,6 +757,16 @@ def arith(op, *args, w=None):
             return args[1]
         if args[1].op == 'const' and args[1].args[0] == 0:
             return args[0]
+        # constant + {known low bits, unknown high part}: the low part and its carry are computed, the addition continues in the high part only
+        for i in (0, 1):
+            c, x = args[i], args[1 - i]
+            if c.op == 'const' and x.op == 'concat' and x.args[0].op == 'const' and len(x.args) > 1:
+                k = x.args[0].w
+                lo = x.args[0].args[0] + (c.args[0] & ((1 << k) - 1))
+                carry = lo >> k
+                hi_c = ((c.args[0] >> k) + carry) & ((1 << (w - k)) - 1)
+                hi = slice_(x, k, w - k)
+                return concat([const(k, lo & ((1 << k) - 1)), arith('add', hi, const(w - k, hi_c)) if hi_c else hi])
     if op == 'sub' and args[1].op == 'const' and args[1].args[0] == 0:
         return args[0]
     if op == 'mul':
@@ -930,6 +941,9 @@ def make(op, args, w):
         a = args[0]
         if a.op == 'const':
             return const(w, ((1 << w) - 1) if (a.args[0] >> (a.w - 1)) & 1 else 0)
+        if a.op == 'concat' and a.args[-1].op == 'const':
+            top = a.args[-1]
+            return const(w, ((1 << w) - 1) if (top.args[0] >> (top.w - 1)) & 1 else 0)
         return mk(op, args, w)
     if op in ('shl', 'lshr', 'ashr') and len(args) == 2 and all(isinstance(a, T) and a.op == 'const' for a in args):
         v, k = args[0].args[0], args[1].args[0]
